@@ -476,9 +476,21 @@ def one_case(ctx, ci, forced=None):
                 if ka != "unique" and wu is not None and wu["kind"] != "lib" and any(
                         x["kind"] == "mem" and x["idx"] not in exp["loaded"] and nm in x["defs"] and pos[x["idx"]] < pos[wu["idx"]]
                         for x in case["units"]):
-                    sig = f"binding:ref={ref}:wild={kb}:earlier-unloaded-archive-member-defines-name"
+                    # one family: wild extracts (or binds to) an archive member that precedes the objects defining /
+                    # referencing the name, which ld and lld leave unloaded
+                    bu = tag_unit(case, b) if b not in (None, 0, -1) else None
+                    wk = ("definition-of-member-ld-leaves-unloaded" if bu is not None and bu["kind"] == "mem" and bu["idx"] not in exp["loaded"]
+                          else kb)
+                    sig = f"binding:ref={ref}:wild={wk}:earlier-unloaded-archive-member-defines-name"
                 if u["kind"] == "lib" and ka != "unique":
                     sig += ":viewer=shared-library"
+                    exe_units = [x for x in case["units"] if x["idx"] in exp["loaded"]]
+                    hid_def = any(nm in x["defs"] and x["defs"][nm]["vis"] == "hidden" for x in exe_units)
+                    hid_ref = any(nm in x["refs"] and x["refs"][nm]["vis"] == "hidden" for x in exe_units)
+                    if hid_ref and not hid_def:
+                        # one family (C31 knows its root): a hidden *reference* does not make the executable's symbol
+                        # hidden, so the symbol is exported and libraries bind to it
+                        sig = "binding:viewer=shared-library:exe-symbol-hidden-only-by-a-reference:wild-exports-it"
                 sigs.setdefault(sig, label)
             for sig, label in sigs.items():
                 LIM.violation(sig, f"{label}: model/ld/lld observe {exp['lines'].get(label)}, wild ({tag}) program observes {t.get(label)}",
